@@ -395,6 +395,8 @@ def templates():
         ratios = g.choice(RATIOS)
         if g.random() < 0.08:
             ratios = [0.3, 0.3]
+        if g.random() < 0.3:
+            ratios = np.array(ratios, dtype=float)       # the ratios as an array instead of a list
         return [data, ratios], {"random_state": g.choice([0, 1, 42, None])}
 
     @t("sorted_tuple")
